@@ -38,29 +38,39 @@ def _is_loop_line(n):
     return bool(re.match(r"(for\b|while\b|loop\b|'\w+:\s*(for|while|loop)\b)", n)) and n.endswith('{')
 
 
+def _balance(lines):
+    d = 0
+    for l in lines:
+        l = _strip_comment(l)
+        d += l.count('{') + l.count('(') + l.count('[') - l.count('}') - l.count(')') - l.count(']')
+    return d
+
+
 def derive(src_text, annotated_text):
+    """align every source line with the annotated text in order; everything in between is an inserted ghost block, which
+    must be balanced in brackets (so that dropping or moving one block never breaks the syntax of another)."""
     a = src_text.split('\n')
     b = annotated_text.split('\n')
     an = [_norm(x) for x in a]
     bn = [_norm(x) for x in b]
     ops = []
-    # signature: source lines up to the first one ending in '{'; annotated header up to the first line that is '{'
     k = 0
     while not _norm(_strip_comment(a[k])).endswith('{'):
         k += 1
     jj = 0
     while bn[jj] != '{':
         jj += 1
-    off_a, off_b = 0, 0
+    ia, jb = 0, 0
     if '\n'.join(an[:k + 1]) != '\n'.join(bn[:jj + 1]):
         ops.append({'op': 'header', 'count': k + 1, 'text': '\n'.join(b[:jj])})
-        off_a, off_b = k + 1, jj + 1
-    sm = difflib.SequenceMatcher(a=an[off_a:], b=bn[off_b:], autojunk=False)
+        ia, jb = k + 1, jj + 1
 
     def nth_of(idx):
         return sum(1 for q in range(idx) if an[q] == an[idx])
 
     def ins_after(idx, lines):
+        while lines and not lines[0].strip():
+            lines = lines[1:]
         if not lines:
             return
         if idx < 0:
@@ -71,48 +81,52 @@ def derive(src_text, annotated_text):
                 op['before'] = an[idx + 1]
                 op['before_nth'] = nth_of(idx + 1)
             ops.append(op)
-    for tag, i1, i2, j1, j2 in sm.get_opcodes():
-        i1 += off_a; i2 += off_a; j1 += off_b; j2 += off_b
-        if tag == 'equal':
+    prev = ia - 1
+    for i in range(ia, len(a)):
+        L = an[i]
+        if L == '':
             continue
-        if tag == 'insert':
-            ins_after(i1 - 1, b[j1:j2])
-            continue
-        if tag == 'delete':
-            raise ValueError('overlay would delete source lines %s' % an[i1:i2])
-        # replace in the body: every source line of the block must be a loop header that reappears transformed
-        jpos = j1
-        for idx in range(i1, i2):
-            L = an[idx]
-            if not _is_loop_line(L):
-                raise ValueError('overlay would rewrite source line /%s/ -> /%s/' % (L, bn[j1:j2][:3]))
-            found = None
-            plain = _norm(_loop_header(a[idx], None))
+        cands = [(L, None)]
+        if _is_loop_line(L):
+            plain = _norm(_loop_header(a[i], None))
+            cands = [(plain, 'PLAIN')]
             try:
-                pat = re.compile('^' + re.escape(_norm(_loop_header(a[idx], 'ITNAMEPLACEHOLDER'))).replace('ITNAMEPLACEHOLDER', r'(\w+)') + '$')
+                pat = re.compile('^' + re.escape(_norm(_loop_header(a[i], 'ITNAMEPLACEHOLDER'))).replace('ITNAMEPLACEHOLDER', r'(\w+)') + '$')
             except ValueError:
                 pat = None
-            for q in range(jpos, j2):
-                if bn[q] == plain:
-                    found = (q, None)
-                    break
-                m = pat.match(bn[q]) if pat else None
-                if m:
-                    found = (q, m.group(1))
-                    break
-            if not found:
-                raise ValueError('loop header /%s/ not found in annotated block' % L)
-            q, it = found
-            ins_after(idx - 1, b[jpos:q])
-            kk = q + 1
+        found = None
+        for j in range(jb, len(b)):
+            hit = None
+            if bn[j] == L:
+                hit = ('same', None)
+            elif _is_loop_line(L):
+                if bn[j] == cands[0][0]:
+                    hit = ('loop', None)
+                else:
+                    m = pat.match(bn[j]) if pat else None
+                    if m:
+                        hit = ('loop', m.group(1))
+            if hit and _balance(b[jb:j]) == 0:
+                found = (j, hit)
+                break
+        if not found:
+            raise ValueError('source line /%s/ not found in the annotated text (in order, with balanced inserts)' % L)
+        j, hit = found
+        ins_after(prev, b[jb:j])
+        if hit[0] == 'loop':
+            kk = j + 1
             while bn[kk] != '{':
                 kk += 1
-            ops.append({'op': 'loop', 'at': L, 'nth': nth_of(idx), 'line': idx, 'itname': it, 'spec': '\n'.join(b[q + 1:kk])})
-            jpos = kk + 1
-        ins_after(i2 - 1, b[jpos:j2])
+            ops.append({'op': 'loop', 'at': L, 'nth': nth_of(i), 'line': i, 'itname': hit[1], 'spec': '\n'.join(b[j + 1:kk])})
+            jb = kk + 1
+        else:
+            jb = j + 1
+        prev = i
+    ins_after(prev, b[jb:])
     return {'src_lines': len(a), 'ops': ops}
 
 
+DROP_OPS = {}  # (thread id, overlay name) -> set of op indexes to skip (second chance after a syntax error in a hint)
 DROP = {}      # thread id -> identifiers whose hints are to be dropped (set by the driver for a retry)
 
 
@@ -164,8 +178,11 @@ def _check_header(real, new):
             raise AnchorLost('return type changed: ' + re.sub(r'\s+', ' ', real))
 
 
-def apply(src_text, overlay, notes=None):
+def apply(src_text, overlay, notes=None, trace=None, skip_ops=()):
     notes = notes if notes is not None else []
+    if skip_ops:
+        overlay = dict(overlay, ops=[op for k, op in enumerate(overlay['ops']) if k not in skip_ops or op['op'] != 'insert'])
+        notes.append('%d hint(s) dropped after a syntax error' % len(skip_ops))
     # second chance after a resolution error: ghost/proof text that mentions an identifier which no longer exists in the
     # function is dropped (hints never add assumptions, so this can only make the proof fail, not pass)
     import threading
@@ -187,7 +204,9 @@ def apply(src_text, overlay, notes=None):
     inserts = {}
     loops = {}
     header = None
-    for op in overlay['ops']:
+    opidx = {}
+    for _k, op in enumerate(overlay['ops']):
+        opidx[id(op)] = _k
         if op['op'] == 'insert':
             if op['after'] == '' and op['line'] == -1:
                 idx = -1
@@ -200,7 +219,7 @@ def apply(src_text, overlay, notes=None):
                         raise
                     idx = _locate(an, op['before'], op['before_nth'], op['line'] + 1, overlay['src_lines'], notes) - 1
                     notes.append('anchor line gone, inserted before /%s/' % op['before'][:40])
-            inserts.setdefault(idx, []).append(op['text'])
+            inserts.setdefault(idx, []).append((op['text'], opidx[id(op)]))
         elif op['op'] == 'loop':
             idx = _locate(an, op['at'], op['nth'], op['line'], overlay['src_lines'], notes)
             if not _is_loop_line(an[idx]):
@@ -229,10 +248,10 @@ def apply(src_text, overlay, notes=None):
         # inserts anchored inside the old signature move behind it
         for kk in range(0, k + 1):
             if kk in inserts:
-                out.extend(inserts[kk])
+                _emit(out, inserts[kk], trace)
         start = k + 1
     if -1 in inserts:
-        out.extend(inserts[-1])
+        _emit(out, inserts[-1], trace)
     for k in range(start, len(a)):
         if k in loops:
             op = loops[k]
@@ -245,8 +264,16 @@ def apply(src_text, overlay, notes=None):
         else:
             out.append(a[k])
         if k in inserts:
-            out.extend(inserts[k])
+            _emit(out, inserts[k], trace)
     return '\n'.join(out)
+
+
+def _emit(out, items, trace):
+    for text, k in items:
+        a = sum(x.count('\n') + 1 for x in out)
+        out.append(text)
+        if trace is not None:
+            trace.append((k, a, a + text.count('\n')))
 
 
 def _dir():
